@@ -168,6 +168,9 @@ func (r *Run) flush() {
 				}
 			}
 			name, method := rest, "-"
+			if e.Subj == "auth.renew" {
+				typ = "tokenreset" // the subject the harness names in its system.tokenReset events
+			}
 			if typ == "call" || typ == "auth" {
 				if j := strings.LastIndexByte(rest, '.'); j > 0 {
 					name, method = rest[:j], rest[j+1:]
@@ -187,6 +190,12 @@ func (r *Run) flush() {
 				ridAbs = AbsRID(name + "?" + p.Query)
 			}
 			r.Lines = append(r.Lines, strings.Join([]string{"MQREQ", strconv.Itoa(e.N), typ, ridAbs, method, cid, tokenAbs(p.Token), q, fmt.Sprintf("%x", r.W.Anon(e.Subj))}, "\t"))
+		case "toktask":
+			tid := "-"
+			if e.Subj != "" {
+				tid = e.Subj
+			}
+			r.Lines = append(r.Lines, "TOKTASK\t"+e.C+"\t"+tokenAbs(json.RawMessage(e.Text))+"\t"+tid)
 		case "sched":
 			r.Lines = append(r.Lines, "SCHED\t"+e.Text)
 		case "site":
